@@ -17,8 +17,12 @@ CONSTANTS MCSlots,      \* slots a duty can be for
 PosTab(s, v) == (v * 3 + s) % 5
 SizeTab(s, c) == 6 + c + (s % 3)
 
-\* validator lists of duties: ordered, distinct
-MCValSeqs == {vs \in UNION {[1..n -> MCVals] : n \in 1..MCMaxLen} : \A i, j \in DOMAIN vs : vs[i] = vs[j] => i = j}
+\* validator lists of duties.  MCValSeqsAll: EVERY sequence - a validator may be listed more than once
+\* (the duty-shape alphabet of C01); MCValSeqsInj: distinct validators only.  A configuration chooses
+\* with `MCValSeqs <- MCValSeqsAll` (default: distinct, the models of C04 are stated over those).
+MCValSeqsAll == UNION {[1..n -> MCVals] : n \in 1..MCMaxLen}
+MCValSeqsInj == {vs \in MCValSeqsAll : \A i, j \in DOMAIN vs : vs[i] = vs[j] => i = j}
+MCValSeqs == MCValSeqsInj
 
 \* all assignments of the listed validators to committees
 MCDuties ==
@@ -26,12 +30,19 @@ MCDuties ==
       sizes |-> [i \in 1..Cardinality(MCComms) |-> <<i - 1, SizeTab(s, i - 1)>>]]
         : s \in MCSlots, vs \in MCValSeqs, cs \in UNION {[1..n -> MCComms] : n \in 1..MCMaxLen}}
 
+\* MCAllComms = FALSE: the committee follows the validator - and, for a validator listed again, the
+\* entry (its k-th listing sits in the next committee) or not (the same entry twice): both variants
+Earlier(vs, i) == Cardinality({j \in 1..(i - 1) : vs[j] = vs[i]})
+ByValidator(d) == \A i \in DOMAIN d.vals : d.comm[i] = d.vals[i] % Cardinality(MCComms)
+ByEntry(d) == \A i \in DOMAIN d.vals : d.comm[i] = (d.vals[i] + Earlier(d.vals, i)) % Cardinality(MCComms)
 Duties == {d \in MCDuties : /\ Len(d.comm) = Len(d.vals)
-                             /\ (MCAllComms \/ (\A i \in DOMAIN d.vals : d.comm[i] = d.vals[i] % Cardinality(MCComms)))}
+                             /\ (MCAllComms \/ ByValidator(d) \/ ByEntry(d))}
 
 Alive == {r \in RunIds : run[r].pc \notin {"idle", "done"}}
 
 Next == NextWith(Duties, MCLean)
+\* the control design of the duty-shape class (Attester!WalkReq): the request built by walking the raw duty
+NextW == NextWalk(Duties, MCLean)
 MCInit ==
     /\ attested \in (IF MCPre THEN SUBSET {<<Epoch(s), v>> : s \in MCSlots, v \in MCVals} ELSE {{}})
     /\ run = [r \in RunIds |-> IdleRun]
@@ -39,6 +50,7 @@ MCInit ==
     /\ submitted = {}
     /\ horizon = 0
 Spec == MCInit /\ [][Next]_vars
+SpecWalk == MCInit /\ [][NextW]_vars
 
 \* bound on concurrency (state constraint)
 AliveBound == Cardinality(Alive) <= MCMaxAlive
